@@ -46,9 +46,47 @@ type vSQ struct {
 	dumped    *big.Int
 	dead      bool
 	last      uint64
+	shutRes   chan error // non-nil: a Shutdown call is in progress on its own goroutine (op shutbegin)
+	shutLast  string     // result of the last such call once it has returned
 }
 
 var vQ *vSQ
+
+// Virtual time-out of a Shutdown call in progress: Shutdown's `time.NewTicker(timeout)` is woven to
+// verifShutdownTicker(timeout) (lib/vlib.py weave_span_backoff); for the magic duration the ticker's channel is this one,
+// which op `shutend` fires.  If the source no longer has that call the real ticker runs (the magic duration is 5 s).
+const vVirtualTimeout = 5*time.Second + 7*time.Millisecond
+
+var vShutTick chan time.Time
+
+func verifShutdownTicker(d time.Duration) *time.Ticker {
+	if d == vVirtualTimeout && vShutTick != nil {
+		return &time.Ticker{C: vShutTick}
+	}
+	return time.NewTicker(d)
+}
+
+// reap collects the result of a Shutdown call in progress once the worker has gone (Shutdown then returns at once)
+func (e *vSQ) reap() {
+	if e.shutRes == nil {
+		return
+	}
+	e.mu.Lock()
+	gone := e.exited
+	e.mu.Unlock()
+	if !gone {
+		return
+	}
+	select {
+	case err := <-e.shutRes:
+		e.shutLast = "ok"
+		if err != nil {
+			e.shutLast = "timeout"
+		}
+		e.shutRes = nil
+	case <-time.After(2 * time.Second):
+	}
+}
 
 type vSender struct{ e *vSQ }
 
@@ -201,6 +239,7 @@ func b01(b bool) string {
 
 func (e *vSQ) dump(prefix string) string {
 	w := e.settle()
+	e.reap()
 	if strings.HasPrefix(w, "stuck") {
 		e.dead = true // every later op would wait for the same goroutine again
 	}
@@ -368,7 +407,49 @@ func vSpanqOp(t []string) string {
 		}
 		e.respCh <- vStatus(t[2]).status
 		return e.dump("blocked=0")
+	case "shutbegin":
+		// Shutdown starts on its own goroutine (as AppHarvest.Close does) while the worker is busy inside send(); it is still
+		// waiting when the following ops run, until the worker leaves or op shutend lets its time-out expire
+		if w := e.settle(); w != "send" || e.shutRes != nil || e.to.isShutdownInitiated() {
+			return noop()
+		}
+		vShutTick = make(chan time.Time, 1)
+		e.shutRes = make(chan error, 1)
+		e.shutLast = ""
+		res := e.shutRes
+		go func() { res <- e.to.Shutdown(vVirtualTimeout) }()
+		for i := 0; i < 2000 && !e.to.isShutdownInitiated(); i++ {
+			time.Sleep(100 * time.Microsecond)
+		}
+		return e.dump("blocked=0")
+	case "shutend":
+		if e.shutRes == nil && e.shutLast == "" {
+			return noop()
+		}
+		if e.shutRes != nil {
+			select {
+			case vShutTick <- time.Now():
+			default:
+			}
+			select {
+			case err := <-e.shutRes:
+				e.shutLast = "ok"
+				if err != nil {
+					e.shutLast = "timeout"
+				}
+				e.shutRes = nil
+			case <-time.After(8 * time.Second):
+				e.dead = true
+				return "blocked=0 shutdown=hung"
+			}
+		}
+		r := e.shutLast
+		e.shutLast = ""
+		return e.dump("blocked=0") + " shutdown=" + r + " late=0"
 	case "shutdown":
+		if e.shutRes != nil {
+			return noop()
+		}
 		const timeout = 30 * time.Millisecond
 		start := time.Now()
 		err := e.to.Shutdown(timeout)
